@@ -113,7 +113,7 @@ def hitOf (nd : Node) (t : Tx) : Bool :=
   | none => false
 
 /-- `TxVerifier.Receive`: exists?, verifyTx, put. -/
-def admit (nd : Node) (tid : Nat) (t : Tx) : Node × String :=
+def takeTx (nd : Node) (tid : Nat) (t : Tx) : Node × String :=
   let W := nd.poolW
   match poolAdmit Hid idealVerify (env nd) nd.acceptCid W (fun h => hitOf nd { t with hash := h }) stdExtra t with
   | .error e => (nd, aErr e)
@@ -225,7 +225,7 @@ def addBlock (nd : Node) (bid parent : Nat) (useMempool : Bool) (tids : List Nat
             let sorted := cand.foldl (fun acc p => insertSorted (p.2, "") acc) []
             let r := sorted.foldl (fun (st : Node × List String) p =>
               match findTx st.1 p.1 with
-              | some t => let a := admit st.1 p.1 t; (a.1, st.2 ++ [s!"{p.1}={a.2}"])
+              | some t => let a := takeTx st.1 p.1 t; (a.1, st.2 ++ [s!"{p.1}={a.2}"])
               | none => st) ({ nd2 with best := bid }, [])
             (r.1, "ok reorg " ++ (if r.2.isEmpty then "-" else ",".intercalate r.2))
   | _, _ => (nd, "bad-op")
@@ -323,10 +323,10 @@ def step (nd : Node) (line : String) : Node × String :=
       else if useMempool && !t.named && hitOf nd t then (nd, "hit")
       else (nd, if blockSigOk Hid idealVerify W.led.names false (fun _ => false) t then "ok" else "fail")
     | _, _ => (nd, "bad-op")
-  | ["admit", tid] =>
+  | ["offer", tid] =>
     match tid.toNat? with
     | some n => match findTx nd n with
-      | some t => admit nd n t
+      | some t => takeTx nd n t
       | none => (nd, "bad-op")
     | none => (nd, "bad-op")
   | ["exec", tid, verified] =>
